@@ -25,6 +25,8 @@ import (
 	"math/rand/v2"
 	"net/http"
 	"net/url"
+	"os"
+	"path/filepath"
 	"sort"
 	"strings"
 	"testing"
@@ -438,6 +440,21 @@ func c05Plan() []c05Case {
 		}
 	}
 
+	// (1b) lock contention: another connection holds the database's write lock past the
+	// busy timeout when the request starts; the SQL layer may retry the transaction.
+	// Whatever it does, the request either fails without effect or succeeds completely.
+	for _, path := range []string{"mgr-write", "mgr-delete", "mgr-transact", "rest-patch"} {
+		for _, hold := range []int{600, 1400} {
+			nI, nD := 6001, 201
+			if path == "mgr-write" {
+				nD = 0
+			}
+			if path == "mgr-delete" {
+				nI = 0
+			}
+			add(c05Case{Kind: "busy", Path: path, NIns: nI, NDel: nD, Target: "write-lock-held", Pos: hold})
+		}
+	}
 	// (2) invalid element at chunk-edge positions of a large request
 	type pos struct {
 		label string
@@ -587,7 +604,18 @@ func c05RunFaults(run *runner, mon *c05Mon) {
 }
 
 func c05FaultCase(run *runner, mon *c05Mon, idx int64, c *c05Case, r *rand.Rand) string {
-	env, err := newEnv(run.t, EnvOpts{Namespaces: c05Namespaces(), FileDB: c.DB == "wal"})
+	opts := EnvOpts{Namespaces: c05Namespaces(), FileDB: c.DB == "wal"}
+	if c.Kind == "busy" {
+		dir, derr := os.MkdirTemp(scratchDir(), "c05busy")
+		if derr != nil {
+			run.inconclusive(fmt.Sprintf("faults idx %d: scratch: %v", idx, derr))
+			return "inconclusive"
+		}
+		defer os.RemoveAll(dir)
+		c.DB = "wal-busy-timeout-250ms"
+		opts.FileDB, opts.DSN = false, fmt.Sprintf("sqlite://file:%s?_fk=true&_journal_mode=WAL&_busy_timeout=250", filepath.Join(dir, "db.sqlite"))
+	}
+	env, err := newEnv(run.t, opts)
 	if err != nil {
 		run.inconclusive(fmt.Sprintf("faults idx %d: env: %v", idx, err))
 		return "inconclusive"
@@ -754,7 +782,32 @@ func c05FaultCase(run *runner, mon *c05Mon, idx int64, c *c05Case, r *rand.Rand)
 	}
 
 	// ---- the request
+	blockerDone := make(chan struct{})
+	if c.Kind == "busy" {
+		raw, rerr := env.rawDB()
+		if rerr != nil {
+			return harness("raw connection", rerr)
+		}
+		rc, rerr := raw.Conn(ctx)
+		if rerr == nil {
+			_, rerr = rc.ExecContext(ctx, "BEGIN IMMEDIATE")
+		}
+		if rerr != nil {
+			_ = raw.Close()
+			return harness("write lock", rerr)
+		}
+		go func() {
+			defer close(blockerDone)
+			time.Sleep(time.Duration(c.Pos) * time.Millisecond)
+			_, _ = rc.ExecContext(context.Background(), "ROLLBACK")
+			_ = rc.Close()
+			_ = raw.Close()
+		}()
+	} else {
+		close(blockerDone)
+	}
 	res := cl.doWrite(c.Path, ins, del, iIns, iDel, 120*time.Second)
+	<-blockerDone
 
 	after, err := env.Dump()
 	if err != nil {
@@ -780,6 +833,27 @@ func c05FaultCase(run *runner, mon *c05Mon, idx int64, c *c05Case, r *rand.Rand)
 	relA, mapA, othA := c05SplitDump(after)
 	sizes := fmt.Sprintf("|I|=%d |D|=%d", c.NIns, c.NDel)
 
+	if c.Kind == "busy" {
+		run.count("requests_under_write_lock_held_by_another_connection", 1)
+		if res.Failed {
+			run.count("busy_requests_failed", 1)
+			if d := diffDumps(relB, relA); d != "" {
+				mon.violate(idx, "faults", "C05:partial-write:"+c.Path+":busy:left="+strings.SplitN(c05Left(relB, relA), " ", 2)[0],
+					fmt.Sprintf("%s with %s failed (%s %s) while another connection held the write lock for %d ms (busy timeout 250 ms), but the stored relationships changed: %s", c.Path, sizes, res.Status, trunc(res.Msg, 80), c.Pos, trunc(d, 300)), c, res)
+				return "violation"
+			}
+			return "ok"
+		}
+		run.count("busy_requests_succeeded", 1)
+		run.nontrivial(fmt.Sprintf("faults/%d", idx))
+		want := c05Apply(countsBefore, wantIns, wantDel)
+		if d := c05CountsDiff(want, countsAfter); d != "" {
+			mon.violate(idx, "faults", "C05:incomplete-success:"+c.Path+":after-lock-contention",
+				fmt.Sprintf("%s with %s reported success after waiting for a write lock that another connection held for %d ms (busy timeout 250 ms: the transaction was retried), but the stored relationships are not apply(I, D, before): %s", c.Path, sizes, c.Pos, d), c, nil)
+			return "violation"
+		}
+		return "ok"
+	}
 	if c.Kind == "control" {
 		if res.Failed {
 			mon.violate(idx, "faults", "C05:control-failed:"+c.Path+":"+res.Status, fmt.Sprintf("fault-free %s with %s failed: %s %s", c.Path, sizes, res.Status, res.Msg), c, res)
